@@ -1712,6 +1712,154 @@ impl<T: PartialEq> Invalidates for Addr<T> {
     }
 }
 
+// Verification hooks: additive, compiled only with the `verif-hooks`
+// feature. They let an external model checker fork an instance and
+// fingerprint its full internal state; they never change behaviour.
+#[cfg(feature = "verif-hooks")]
+impl Clone for NoCustomBroadcast {
+    fn clone(&self) -> Self {
+        Self
+    }
+}
+
+#[cfg(feature = "verif-hooks")]
+impl<T: Clone> Clone for Addr<T> {
+    fn clone(&self) -> Self {
+        Self(self.0.clone())
+    }
+}
+
+#[cfg(feature = "verif-hooks")]
+impl<T, C, RNG, B> Clone for Foca<T, C, RNG, B>
+where
+    T: Identity,
+    T::Addr: Clone,
+    C: Clone,
+    RNG: Clone,
+    B: BroadcastHandler<T> + Clone,
+    B::Key: Clone,
+{
+    fn clone(&self) -> Self {
+        // Vec::clone() shrinks capacity to len, which would make the copy
+        // differ from the original wrt. the send_buf capacity invariant
+        let mut send_buf = Vec::with_capacity(self.send_buf.capacity());
+        send_buf.extend_from_slice(&self.send_buf);
+        Self {
+            identity: self.identity.clone(),
+            codec: self.codec.clone(),
+            rng: self.rng.clone(),
+            incarnation: self.incarnation,
+            config: self.config.clone(),
+            connection_state: self.connection_state,
+            timer_token: self.timer_token,
+            members: self.members.clone(),
+            probe: self.probe.clone(),
+            updates_buf: self.updates_buf.clone(),
+            choice_buf: self.choice_buf.clone(),
+            send_buf,
+            updates: self.updates.clone(),
+            broadcast_handler: self.broadcast_handler.clone(),
+            custom_broadcasts: self.custom_broadcasts.clone(),
+        }
+    }
+}
+
+/// Verification-only plain-data view of the internal state of a
+/// [`Foca`] instance. Only available with the `verif-hooks` feature.
+#[cfg(feature = "verif-hooks")]
+#[derive(Debug, Clone, PartialEq, Eq, Hash)]
+#[allow(missing_docs)]
+pub struct VerifSnapshot<T> {
+    pub identity: T,
+    pub incarnation: Incarnation,
+    /// 0 = disconnected, 1 = connected, 2 = undead
+    pub connection_state: u8,
+    pub timer_token: TimerToken,
+    /// Member records, in storage order
+    pub members: Vec<Member<T>>,
+    pub cursor: usize,
+    pub num_active: usize,
+    pub probe_target: Option<Member<T>>,
+    pub probe_indirect: Vec<T>,
+    pub probe_number: ProbeNumber,
+    pub probe_direct_ack_ok: bool,
+    pub probe_indirect_ack_count: usize,
+    pub probe_reached_indirect_stage: bool,
+    /// (remaining transmissions, serialized update), in heap order
+    pub updates: Vec<(usize, Vec<u8>)>,
+    /// (remaining transmissions, item), in heap order
+    pub custom_broadcasts: Vec<(usize, Vec<u8>)>,
+    pub updates_buf_len: usize,
+    pub send_buf_capacity: usize,
+    pub config: alloc::string::String,
+}
+
+#[cfg(feature = "verif-hooks")]
+impl<T, C, RNG, B> Foca<T, C, RNG, B>
+where
+    T: Identity,
+    B: BroadcastHandler<T>,
+{
+    /// Verification-only access to the broadcast handler.
+    pub fn verif_handler(&self) -> &B {
+        &self.broadcast_handler
+    }
+
+    /// Verification-only mutable access to the broadcast handler.
+    pub fn verif_handler_mut(&mut self) -> &mut B {
+        &mut self.broadcast_handler
+    }
+
+    /// Verification-only mutable access to the random number generator.
+    pub fn verif_rng_mut(&mut self) -> &mut RNG {
+        &mut self.rng
+    }
+
+    /// Verification-only snapshot of the internal state.
+    pub fn verif_snapshot(&self) -> VerifSnapshot<T> {
+        let (
+            probe_target,
+            probe_indirect,
+            probe_number,
+            probe_direct_ack_ok,
+            probe_indirect_ack_count,
+            probe_reached_indirect_stage,
+        ) = self.probe.verif_fields();
+        VerifSnapshot {
+            identity: self.identity.clone(),
+            incarnation: self.incarnation,
+            connection_state: match self.connection_state {
+                ConnectionState::Disconnected => 0,
+                ConnectionState::Connected => 1,
+                ConnectionState::Undead => 2,
+            },
+            timer_token: self.timer_token,
+            members: self.members.inner.clone(),
+            cursor: self.members.verif_cursor(),
+            num_active: self.members.num_active(),
+            probe_target,
+            probe_indirect,
+            probe_number,
+            probe_direct_ack_ok,
+            probe_indirect_ack_count,
+            probe_reached_indirect_stage,
+            updates: self
+                .updates
+                .verif_entries()
+                .map(|(remaining_tx, data)| (remaining_tx, data.to_vec()))
+                .collect(),
+            custom_broadcasts: self
+                .custom_broadcasts
+                .verif_entries()
+                .map(|(remaining_tx, data)| (remaining_tx, data.to_vec()))
+                .collect(),
+            updates_buf_len: self.updates_buf.len(),
+            send_buf_capacity: self.send_buf.capacity(),
+            config: alloc::format!("{:?}", self.config),
+        }
+    }
+}
+
 #[cfg(test)]
 impl<T, C, RNG, B> Foca<T, C, RNG, B>
 where
